@@ -1,4 +1,6 @@
 """C18 — clause pre-filtering never discards an applicable clause."""
+import os
+
 from vlib import core, irgen, sx
 from vlib.sx import Pair
 
@@ -9,7 +11,7 @@ META = {
     "level_text": "Machine-checked proof (Coq 8.16, axiom-free) that the Gallina model of CouldMatch::could_match (zip_tys table of MatchZipper, derived Zip impls for generic args, trait refs, where clauses, domain goals, binders, slices) never rejects a pair that instantiations make syntactically equal, for all terms and all kind-preserving instantiations; tied to /repo on every run by comparing the real could_match with the model on an exhaustive sweep of head-constructor pairs and on mutated random pairs, and by checking on the implementation alone that whenever the real unifier succeeds the real filter said true.",
     "level_note": "Trusted: Coq kernel; hand-written model coq/Ir/CouldMatch.v tied by correspondence on generated pairs (bounded depth); 'unifiable' is formalised as equality under instantiation of bound/inference variables, lifetimes, consts and type-position aliases, which real unification success implies; harness conversion. The filter call sites (impls_for_trait, build_table, solve_from_clauses) are exercised end to end by C01/C04 runs, not modelled here.",
     "design_ref": "DESIGN.md section 4 C18",
-    "bins": ["irbin"],
+    "bins": ["irbin", "solve"],
     "assumptions": ["ADT/fn-def variance tables have at least as many entries as the substitution (true for lowered programs)"],
 }
 
@@ -233,8 +235,57 @@ def run(ctx):
             (a, b), impl = sl_pairs[j][0], sl_pairs[j][1]
             ctx.violation({"kind": "correspondence", "a": sx.to_sexp(a), "b": sx.to_sexp(b), "implementation": impl,
                            "broken": "correspondence Ir.CouldMatch.could_match_slice = <[GenericArg] as CouldMatch>::could_match"}, no_input=True)
+    filter_differential(ctx)
     if not ok:
         ctx.violation({"kind": "proof", "broken": why}, no_input=True)
+
+
+def filter_differential(ctx):
+    """'Filtering changes only speed, never answers': both real solvers on generated programs and
+    goals, with the pre-filter active and with hook H6 (CHALK_VERIF_NO_FILTER) making could_match
+    accept everything; every answer must be identical.  This covers the call sites of the filter
+    (impls_for_trait, build_table, solve_from_clauses, program_clauses_that_could_match)."""
+    from vlib import logic, proggen as pg
+    core.build_harness(bins=["solve"])
+    r = ctx.rng
+    cases, meta = [], []
+    for _ in range(ctx.n(30, 600)):
+        prog = pg.gen_program(r)
+        text = pg.to_text(prog)
+        goals = [pg.goal_text(g) for g in pg.GoalGen(r, prog).goals(4, 2, 3)]
+        for solver in (pg.SLG, pg.REC):
+            cases.append(pg.case(text, goals, solver, "Fresh", [("Cpu", 5)]))
+            meta.append((prog.shape, text, goals, solver))
+    for prog, goals in pg.corpus():
+        text = pg.to_text(prog)
+        gts = [pg.goal_text(g) for g in goals]
+        for solver in (pg.SLG, pg.REC):
+            cases.append(pg.case(text, gts, solver, "Fresh", [("Cpu", 5)]))
+            meta.append((prog.shape, text, gts, solver))
+    on = logic.solve_cases(cases, timeout=600)
+    os.environ["CHALK_VERIF_NO_FILTER"] = "1"
+    try:
+        off = logic.solve_cases(cases, timeout=600)
+    finally:
+        del os.environ["CHALK_VERIF_NO_FILTER"]
+    ndiff = ninc = 0
+    for (shape, text, goals, solver), a, b in zip(meta, on, off):
+        if not a["ok"] or not b["ok"]:
+            ninc += 1
+            continue
+        for gt, (pa, aa), (pb, ab) in zip(goals, a["goals"], b["goals"]):
+            if logic.is_death(aa) or logic.is_death(ab) or pa == "error" or pb == "error":
+                ninc += 1
+                continue
+            ctx.count("filter-on-vs-off", (text, gt, solver), nontrivial=True)
+            if sx.to_sexp(aa) != sx.to_sexp(ab):
+                ndiff += 1
+                if ndiff <= 3:
+                    ctx.violation({"kind": "property", "program": text, "goal": gt, "solver": solver, "shape": shape,
+                                   "answer_with_filter": sx.to_sexp(aa), "answer_without_filter": sx.to_sexp(ab),
+                                   "what": "the solver's answer changes when the could_match pre-filter is disabled: the filter discards an applicable clause (or otherwise changes answers)"})
+    ctx.cov["filter_differential"] = {"cases": len(cases), "differences": ndiff, "inconclusive": ninc}
+    ctx.sample({"family": "filter-on-vs-off", "program": meta[0][1][:400], "goals": meta[0][2][:3], "solver": meta[0][3]})
 
 
 def search_unifiable(ctx, g, a, b):
